@@ -361,6 +361,7 @@ func (res *CheckResult) checkExpression(lit parser.ValueExpr, requiredType strin
 	case *parser.AccountLiteral:
 		res.assertHasType(lit, requiredType, TypeAccount)
 	case *parser.RatioLiteral:
+		res.checkDivByZero(lit)
 		res.assertHasType(lit, requiredType, TypePortion)
 	case *parser.AssetLiteral:
 		res.assertHasType(lit, requiredType, TypeAsset)
@@ -374,6 +375,24 @@ func (res *CheckResult) checkExpression(lit parser.ValueExpr, requiredType strin
 		res.checkExpression(lit.Left, TypeAny)
 		res.checkExpression(lit.Right, TypeAny)
 	}
+}
+
+// Reports portion literals like "1/0" (returns whether the literal is a division by zero)
+func (res *CheckResult) checkDivByZero(portion *parser.RatioLiteral) bool {
+	if portion == nil {
+		// missing portion (the parser already reported the error)
+		return true
+	}
+
+	if portion.Denominator.Sign() != 0 {
+		return false
+	}
+
+	res.Diagnostics = append(res.Diagnostics, Diagnostic{
+		Range: portion.Range,
+		Kind:  &DivByZero{},
+	})
+	return true
 }
 
 func (res *CheckResult) assertHasType(lit parser.ValueExpr, requiredType string, actualType string) {
@@ -492,7 +511,9 @@ func (res *CheckResult) checkSource(source parser.Source) {
 				variableLiterals = append(variableLiterals, *allotment)
 				res.checkExpression(allotment, TypePortion)
 			case *parser.RatioLiteral:
-				sum.Add(sum, allotment.ToRatio())
+				if !res.checkDivByZero(allotment) {
+					sum.Add(sum, allotment.ToRatio())
+				}
 			case *parser.RemainingAllotment:
 				if isLast {
 					remainingAllotment = allotment
@@ -545,7 +566,9 @@ func (res *CheckResult) checkDestination(destination parser.Destination) {
 				variableLiterals = append(variableLiterals, *allotment)
 				res.checkExpression(allotment, TypePortion)
 			case *parser.RatioLiteral:
-				sum.Add(sum, allotment.ToRatio())
+				if !res.checkDivByZero(allotment) {
+					sum.Add(sum, allotment.ToRatio())
+				}
 			case *parser.RemainingAllotment:
 				if isLast {
 					remainingAllotment = allotment
